@@ -13,7 +13,7 @@ use proptest::prelude::*;
 use serde::{Deserialize, Serialize};
 use serde_json::{json, Value};
 
-const PEER_HANDLER: HandlerSpec = HandlerSpec { enabled: true, inval: Inval::Never, accept: Accept::Always, recipients: u32::MAX };
+const PEER_HANDLER: HandlerSpec = HandlerSpec { enabled: true, inval: Inval::Never, accept: Accept::Always, recipients: u32::MAX, accept_empty: false };
 
 #[derive(Default)]
 pub struct WireStats {
@@ -267,6 +267,10 @@ pub struct SweepCase {
     pub updates: u16,
     pub item_sizes: Vec<u16>,
     pub max_tx: u8,
+    /// true: addresses, generations and incarnations are spread over several varint widths, so that under
+    /// the field-wise serde codecs members have different encoded sizes and fail to fit at different fields
+    #[serde(default)]
+    pub spread: bool,
 }
 
 fn sweep_cases(tier: Tier) -> Vec<SweepCase> {
@@ -281,7 +285,10 @@ fn sweep_cases(tier: Tier) -> Vec<SweepCase> {
                 (5, 12, vec![2, 2, 7, 30]),
                 (40, 40, vec![1, 1, 1, 5, 9, 20, 3, 2, 6, 11, 4, 8]),
             ] {
-                v.push(SweepCase { codec, max_packet, members, updates, item_sizes, max_tx: 2 });
+                v.push(SweepCase { codec, max_packet, members, updates, item_sizes: item_sizes.clone(), max_tx: 2, spread: false });
+                if members >= 5 {
+                    v.push(SweepCase { codec, max_packet, members, updates, item_sizes, max_tx: 2, spread: true });
+                }
             }
         }
     }
@@ -320,9 +327,22 @@ pub fn exec_sweep(c: &SweepCase, out: &mut CaseOut) -> Result<(), Fail> {
         Ok(rec)
     };
     // load: members without broadcasting, then `updates` fresh updates, then items
-    let ms: Vec<Member<Id>> = (0..c.members).map(|k| Member::new(Id::new(1 + k, 0), 0, State::Alive)).collect();
+    // member k: (address, generation, base incarnation); the first two stay (1,0) and (2,0): they talk to us below
+    let shape = |k: u16| -> (u16, u16, u16) {
+        if !c.spread || k < 2 {
+            (1 + k, 0, 0)
+        } else {
+            (1 + k * [1u16, 37, 700][(k % 3) as usize], [0u16, 0, 200, 17000][(k % 4) as usize], [0u16, 130, 0, 16500, 3][(k % 5) as usize])
+        }
+    };
+    let ms: Vec<Member<Id>> = (0..c.members).map(|k| shape(k)).map(|(a, g, i)| Member::new(Id::new(a, g), i, State::Alive)).collect();
     go(&mut r, Call::ApplyMany(ms, false), Origin::NotTimer, &mut stats)?;
-    let us: Vec<Member<Id>> = (0..c.updates).map(|k| Member::new(Id::new(1 + (k % c.members.max(1)), 0), 1 + k / c.members.max(1), if k % 3 == 0 { State::Suspect } else { State::Alive })).collect();
+    let us: Vec<Member<Id>> = (0..c.updates)
+        .map(|k| {
+            let (a, g, i) = shape(k % c.members.max(1));
+            Member::new(Id::new(a, g), i + 1 + k / c.members.max(1), if k % 3 == 0 { State::Suspect } else { State::Alive })
+        })
+        .collect();
     go(&mut r, Call::ApplyMany(us, true), Origin::NotTimer, &mut stats)?;
     for (i, n) in c.item_sizes.iter().enumerate() {
         let mut b = vec![i as u8, 1];
